@@ -388,6 +388,13 @@ func (e *Exec) convert(st *State, x Val, to types.Type) string {
 					return "(mod " + x.T + " 256)"
 				}
 			}
+			// widening (every value of the source type is a value of the target type): identity.
+			// Values of an integer type are always within its range (maintained at every operation).
+			if flo, fhi, ok1 := intRange(x.Typ); ok1 {
+				if tlo, thi, ok2 := intRange(to); ok2 && tlo.Cmp(flo) <= 0 && fhi.Cmp(thi) <= 0 && fb.Kind() != types.UntypedInt && fb.Kind() != types.UntypedRune {
+					return x.T
+				}
+			}
 			return wrapTo(x.T, to)
 		case fb.Info()&types.IsInteger != 0 && tb.Info()&types.IsFloat != 0:
 			return "(to_real " + x.T + ")"
